@@ -207,6 +207,27 @@ def run(rep, tier, seed):
             alt = bytearray(img); alt[p + field] = val
             if bytes(alt) != img:
                 rcases.append('logread 1 %s' % hx(bytes(alt))); tags.append(('alter', recs, img, (p + field, bytes(alt))))
+    # whole-header zeroing (what a preallocated / zero-filled region looks like), aimed at the fragments of
+    # multi-block records: the reader must not carry a fragment chain across such a hole
+    nz = 0
+    for (recs, img) in images:
+        hs = walk_headers(img)
+        frag_heads = [h for h in hs if h[2] in (3, 4)]           # MIDDLE / LAST fragments
+        if not frag_heads or nz >= (40 if tier == 'quick' else 1500):
+            continue
+        for (b, p, ty, ln) in frag_heads[:3]:
+            for width in (7, 3):
+                alt = bytearray(img)
+                if width == 7: alt[p:p + 7] = bytes(7)
+                else: alt[p + 4:p + 7] = bytes(3)
+                rcases.append('logread 1 %s' % hx(bytes(alt))); tags.append(('zerohdr', recs, img, (p, bytes(alt)))); nz += 1
+    for (recs, img) in images[:100 if tier == 'quick' else 2000]:
+        hs = walk_headers(img)
+        if len(hs) < 2 or len(img) > 3000:
+            continue
+        (b, p, ty, ln) = rng.choice(hs)
+        alt = bytearray(img); alt[p:p + 7] = bytes(7)
+        rcases.append('logread 1 %s' % hx(bytes(alt))); tags.append(('zerohdr', recs, img, (p, bytes(alt))))
     # garbage and splices
     for _ in range(150 if tier == 'quick' else 5000):
         k = rng.below(4)
@@ -247,8 +268,8 @@ def run(rep, tier, seed):
                 ok = (len(got) == want)
             if not ok:
                 rep.violation({'kind': 'oracle-cut', 'cut': extra, 'case': case[:20000], 'implementation': out_c[:2000]})
-        elif kind in ('alter', 'sector', 'garbage', 'nochecksum'):
-            if kind in ('alter', 'sector'):
+        elif kind in ('alter', 'sector', 'garbage', 'nochecksum', 'zerohdr'):
+            if kind in ('alter', 'sector', 'zerohdr'):
                 pos, alt = extra
                 rep.nontrivial((kind, len(img), pos))
                 # never a record that was not written
